@@ -986,6 +986,119 @@ def zero_is_not_unset(ctx: Ctx, rep: Report, rid: str = "R05.13") -> None:
         rep.ok("package", f"no truthiness test or `or`-default on {sorted(set(k.lstrip('_') for k in ZERO_IS_A_VALUE))}", nontrivial=False)
 
 
+def limit_error_not_swallowed(ctx: Ctx, rep: Report, rid: str = "R05.16") -> None:
+    """"Rejected with an error, never approximated" holds for containers too: where a builder skips an item whose text it
+    cannot read (`except ValueError: log; continue`) and the construction in the `try` can raise the limit error
+    (NetmaskValueError is a ValueError), a handler for the limit error that re-raises stands BEFORE the skipping one -
+    as in `AceGroup._line_to_oace`.  Without it the group is built without the member whose mask needs too many bits:
+    its text, items and prefixes silently describe a smaller set."""
+    from ..cfg import handler_classes
+
+    rep.rule(rid)
+    n = 0
+    for f in ctx.prog.funcs:
+        for t in [x for x in own_nodes(f.node) if isinstance(x, ast.Try)]:
+            raises_limit = any("NetmaskValueError" in ctx.excs.call_raises(f, c) for b in t.body for c in ast.walk(b) if isinstance(c, ast.Call))
+            if not raises_limit:
+                continue
+            for hi, h_ in enumerate(t.handlers):
+                cs = handler_classes(h_)
+                skips = any(isinstance(x, (ast.Continue, ast.Return, ast.Break)) for b in h_.body for x in ast.walk(b)) and not isinstance(h_.body[-1], ast.Raise)
+                if not skips or not (not cs or any(c in ("ValueError", "Exception", "BaseException") for c in cs)):
+                    continue
+                n += 1
+                rep.instance()
+                earlier = [e for e in t.handlers[:hi] if "NetmaskValueError" in handler_classes(e) and isinstance(e.body[-1], ast.Raise)]
+                if earlier:
+                    rep.ok(f"{f.qualname}: except {', '.join(cs) or '<bare>'}", "the limit error is re-raised by an earlier handler", where=where(f, h_))
+                else:
+                    rep.violation(f.qualname, f"except {', '.join(cs) or '<bare>'}: skip", "the handler that skips an unreadable item also catches the limit error (NetmaskValueError is a ValueError): a member whose wildcard needs more non-contiguous bits than max_ncwb is left out without an error - the group is an approximation of its text", where(f, h_), inp="AddrGroup('object-group ip address X\\n 10 host 1.1.1.1\\n 20 10.0.0.0 0.0.7.7', platform='nxos', max_ncwb=2)  -> built with one member")
+    if n == 0:
+        rep.note(f"{rid} no skipping handler around a construction that can raise the limit error - not judged")
+
+
+def drivers_hand_over_limit(ctx: Ctx, rep: Report, rid: str = "R05.15") -> None:
+    """The config-level drivers take `max_ncwb` from the caller; every object with a limit that they (or the module helpers
+    they call) build receives it: the constructor call carries `max_ncwb=` or spreads the function's `**kwargs` / a local
+    dict that has the key.  A spread of parser output alone (`AddrGroup(**d)`) builds the object under the default 16:
+    `acls(cfg, max_ncwb=17)` refuses a group member that the same call accepts in an entry."""
+    rep.rule(rid)
+    holders = _limit_holders(ctx)
+    n = 0
+    mod_funcs = [g for g in ctx.prog.funcs if g.cls is None and g.module.name.endswith("functions")]
+    # the drivers that take a limit, and the module helpers they call (transitively)
+    scope = [g for g in mod_funcs if any(isinstance(x, ast.Name) and x.id == "max_ncwb" and isinstance(x.ctx, ast.Store) for x in own_nodes(g.node)) or "max_ncwb" in g.params]
+    todo = list(scope)
+    while todo:
+        g = todo.pop()
+        for e in ctx.cg.all_edges(g):
+            if isinstance(e.target, Func) and e.target in mod_funcs and e.target not in scope and not e.weak:
+                scope.append(e.target)
+                todo.append(e.target)
+    for g in sorted(scope, key=lambda x: x.qualname):
+        kwname = g.node.args.kwarg.arg if g.node.args.kwarg else None
+        env = single_env(g.node)
+        for c in [x for x in own_nodes(g.node) if isinstance(x, ast.Call) and isinstance(x.func, ast.Name) and x.func.id in holders and x.func.id in ctx.prog.classes]:
+            n += 1
+            rep.instance()
+            ok = any(k.arg == "max_ncwb" for k in c.keywords)
+            for k in c.keywords:
+                if k.arg is None and isinstance(k.value, ast.Name):
+                    if k.value.id == kwname:
+                        ok = True
+                    d = env.get(k.value.id)
+                    if isinstance(d, ast.Call) and src(d.func) == "dict" and any(kk.arg == "max_ncwb" for kk in d.keywords):
+                        ok = True
+                    if isinstance(d, ast.Call) and isinstance(d.func, ast.Attribute) and d.func.attr == "data":
+                        ok = True  # the exported data of an object: carries that object's own limit
+                    if isinstance(d, ast.Dict) and any(isinstance(kk, ast.Constant) and kk.value == "max_ncwb" for kk in d.keys):
+                        ok = True
+            if ok:
+                rep.ok(f"{g.qualname}: {snippet(c, 40)}", "receives the caller's max_ncwb", nontrivial=False, where=where(g, c))
+            else:
+                rep.violation(g.qualname, snippet(c, 60), f"the {c.func.id} is built without the limit the caller gave to the driver (no `max_ncwb=`, no spread of the driver's keyword arguments): its members are checked against the default 16 - a member with more non-contiguous bits is refused although the caller allowed it, one with more than a smaller limit is attached although the caller forbade it", where(g, c), inp="acls(<nxos config whose group G has member '10 10.0.0.0 1.255.255.1'>, platform='nxos', max_ncwb=17)")
+    # a helper that builds from its own **kwargs gets the limit only if its caller passes it on
+    spreaders = set()
+    for g in scope:
+        kwname = g.node.args.kwarg.arg if g.node.args.kwarg else None
+        if kwname and any(isinstance(x, ast.Call) and isinstance(x.func, ast.Name) and x.func.id in holders and any(k.arg is None and isinstance(k.value, ast.Name) and k.value.id == kwname for k in x.keywords) for x in own_nodes(g.node)):
+            spreaders.add(g)
+    for g in sorted(scope, key=lambda x: x.qualname):
+        kwname = g.node.args.kwarg.arg if g.node.args.kwarg else None
+        for e in ctx.cg.all_edges(g):
+            if isinstance(e.target, Func) and e.target in spreaders and isinstance(e.site, ast.Call) and not e.weak and e.target.name.startswith("_"):
+                n += 1
+                rep.instance()
+                c = e.site
+                if any(k.arg == "max_ncwb" for k in c.keywords) or any(k.arg is None and isinstance(k.value, ast.Name) and k.value.id == kwname for k in c.keywords):
+                    rep.ok(f"{g.qualname}: {snippet(c, 40)}", "passes the limit on to the helper that builds from its keyword arguments", nontrivial=False, where=where(g, c))
+                else:
+                    rep.violation(g.qualname, snippet(c, 60), f"{e.target.qualname} builds objects from its keyword arguments, and this call gives it no `max_ncwb`: the objects are checked against the default 16, not against the caller's limit", where(g, c), inp="acls(cfg, max_ncwb=17)")
+    rep.floor(2, "constructions of limit holders in the config-level drivers") if n else None
+
+
+def memo_not_handed_out(ctx: Ctx, rep: Report, rid: str = "R05.14") -> None:
+    """A public method never returns the list it keeps as its memo: the caller owns what it gets (`nets = w.ipnets();
+    nets.extend(...)`), and a change of that list would be every later answer of the object (`subnet_of`, `in`, shadow
+    tests all read `ipnets()`).  The memoising method returns a copy (`list(self._m)`)."""
+    rep.rule(rid)
+    roots = [(f, why) for f, why in _memo_exposers(ctx).values() if "its memo" in why]
+    n = 0
+    for cls in ctx.prog.classes.values():
+        for f in list(cls.methods.values()) + list(cls.getters.values()):
+            if _instance_memo(f) is None or f.name.startswith("_"):
+                continue
+            n += 1
+            rep.instance()
+            hit = [why for g, why in roots if g is f]
+            if hit:
+                rep.violation(f.qualname, hit[0], "the list kept as memo is handed to the caller itself: when the caller changes the list it received (extends it, deletes from it), every later answer computed from the memo is about other networks - a non-contiguous wildcard then contains addresses it does not match", where(f), inp="top = Address('10.0.0.0 0.0.3.3'); nets = top.ipnets(); nets.extend(Address('20.0.0.0 0.0.0.255').ipnets()); Address('host 20.0.0.9').subnet_of(top) is True")
+            else:
+                rep.ok(f.qualname, "returns a copy of its memo, never the memo list itself", where=where(f))
+    if n == 0:
+        rep.note(f"{rid} no public memoising method found - not judged")
+
+
 def memo_filled_in_place(ctx: Ctx, rep: Report, rid: str = "R05.10") -> None:
     """A memo becomes visible only when it is complete: the method that answers from `self._m` when it is set does not
     grow that very list while computing (an error or interruption half way leaves a partial list that every later query
@@ -1144,6 +1257,9 @@ def run(ctx: Ctx, rep: Report, tier: str) -> None:
     r05_9(ctx, rep)
     memo_filled_in_place(ctx, rep)
     zero_is_not_unset(ctx, rep)
+    memo_not_handed_out(ctx, rep)
+    drivers_hand_over_limit(ctx, rep)
+    limit_error_not_swallowed(ctx, rep)
     expansion_covers_members(ctx, rep)
     # R05.11 a factory hands the caller's limit (all its keyword arguments) to the object it builds, on every path
     from .c16 import dict_builders_pass_everything
